@@ -3,6 +3,11 @@ package c09
 
 import (
 	"fmt"
+	"strings"
+
+	"github.com/flosch/pongo2/v6"
+
+	"verifmc/internal/px"
 
 	"verifmc/internal/eng"
 	"verifmc/internal/enum"
@@ -51,10 +56,55 @@ func dataValues(q bool) []V {
 		ListV(IntV(3), IntV(1), IntV(2)), ListV(IntV(10), IntV(9), IntV(100)),
 		ListV(StrV("b"), StrV("a"), StrV("c")), ListV(StrV("b")),
 		StrV(""), StrV("a"), StrV("ab"), StrV("bca"), StrV("é€x"),
+		ListAnyV(IntV(3), IntV(1), IntV(2)), ListAnyV(StrV("b"), StrV("a"), StrV("c")), ListAnyV(IntV(10), IntV(9)),
+		ListV(FloatV(10.5), FloatV(2.5), FloatV(-1)), ListV(FloatV(0.25), FloatV(0.125)), ListV(FloatV(3), FloatV(2), FloatV(1), FloatV(2)),
 		MapV(), MapV("a", IntV(1)), MapV("b", IntV(2), "a", IntV(1)), MapV("c", IntV(3), "a", IntV(1), "b", IntV(2)),
 		NilV(), IntV(0), IntV(5), BoolV(true),
 	)
 	return vals
+}
+
+// ComplCase: ifequal and ifnotequal take opposite branches for the same two operands, whatever their Go types.
+type ComplCase struct {
+	A int `json:"a"` // indexes into complOperands
+	B int `json:"b"`
+}
+
+type complOp struct {
+	name string
+	v    any
+}
+
+func complOperands() []complOp {
+	type myInt int
+	return []complOp{{"int2", 2}, {"int3", 3}, {"int64_2", int64(2)}, {"uint2", uint(2)}, {"int8_3", int8(3)}, {"uint64_3", uint64(3)}, {"myInt2", myInt(2)},
+		{"str2", "2"}, {"strA", "a"}, {"float2", 2.0}, {"float32_2", float32(2)}, {"float2_5", 2.5}, {"nil", nil}, {"true", true}, {"false", false}, {"empty", ""}, {"zero", 0}, {"list12", []int{1, 2}}}
+}
+
+func (c *ComplCase) ID() string {
+	ops := complOperands()
+	return fmt.Sprintf("ifequal/ifnotequal %s %s", ops[c.A].name, ops[c.B].name)
+}
+
+func (c *ComplCase) Exec(t *eng.T) {
+	t.Nontrivial()
+	ops := complOperands()
+	src := "{% ifequal a b %}E{% else %}e{% endifequal %}{% ifnotequal a b %}N{% else %}n{% endifnotequal %}|{% ifequal b a %}E{% else %}e{% endifequal %}{% ifnotequal b a %}N{% else %}n{% endifnotequal %}"
+	o := px.Render(nil, src, pongo2.Context{"a": ops[c.A].v, "b": ops[c.B].v})
+	t.Outcome(o.String())
+	if o.Panic != "" {
+		t.Fail("ifequal:panic", "%s panics: %s", c.ID(), o.PanicMsg)
+		return
+	}
+	if o.Failed() {
+		return // comparing these kinds may be an error; then both tags fail alike (judged by the same-kind families)
+	}
+	for _, half := range strings.Split(o.S, "|") {
+		if half != "En" && half != "eN" {
+			t.Fail("ifequal:not-complementary", "%s: the two tags render %q for the same operands (exactly one of them must take its first branch)", c.ID(), o.S)
+			return
+		}
+	}
 }
 
 func run(r *eng.Runner) {
@@ -245,6 +295,13 @@ func run(r *eng.Runner) {
 	// top-level sequence of cycle tags
 	emit([]Node{&Cycle{Args: []Expr{lits("a"), lits("b")}, As: "c"}, CycleRef{Name: "c"}, CycleRef{Name: "c"}, O(v("c")), &Cycle{Args: []Expr{lits("x"), lits("y")}, As: "d", Silent: true}, O(v("d")), CycleRef{Name: "d"}, O(v("d"))}, nil, "cycle", "cycle-toplevel")
 
+	r.Group("ifequal-complement", "c09.compl", "ifequal and ifnotequal on every ordered pair of 18 operands of different Go kinds (int, int64, uint, int8, uint64, a named int, strings, float64, float32, nil, bools, a list): exactly one of the two takes its first branch")
+	for a := range complOperands() {
+		for b := range complOperands() {
+			r.Do(&ComplCase{A: a, B: b})
+		}
+	}
+
 	// ---- ifchanged ----
 	r.Group("ifchanged", "prog.case", "ifchanged in content form and in watched form (1..2 watched values, with and without else) inside loops over all int sequences; nested loops are judged only where 'state per tag' and 'state per enclosing loop' agree")
 	iseqs := intSeqs(6)
@@ -299,6 +356,7 @@ func run(r *eng.Runner) {
 }
 
 func init() {
+	eng.RegisterCase("c09.compl", func() eng.Case { return &ComplCase{} })
 	eng.Register(&eng.Check{
 		ID:    "C09",
 		Title: "Branching and looping tags follow their reference semantics",
